@@ -11,11 +11,16 @@ Local Open Scope Z_scope.
 Definition cs2_l := (changeset_l * changeset_l)%type.
 Definition split_l := (bundle_l * cs2_l * list prevert_l * bundle_l * cs2_l * changeset_l)%type.
 Definition take_l := (Z * list (list arevert_l) * bundle_l * list (list arevert_l) * bundle_l)%type.
+(* the same split with the second half built on its own: the recorded operations applied again
+   on a fresh cache loaded from the plain state after group i (no status inherited from the first
+   half); the transitions it produced, and extend(b1, b2') with its changesets and plain reverts *)
+Definition fsplit_l := (list (list (list (Z * trans_l))) * bundle_l * cs2_l * list prevert_l)%type.
 Record case := mkCase18 {
   k_base : base;
   k_mono : option (cs2_l * list prevert_l);
   k_splits : list (option split_l);        (* split after group i, i = 1..n-1 *)
-  k_take : option take_l
+  k_take : option take_l;
+  k_fsplits : list (option fsplit_l)       (* [] when the stream cannot rebuild the second half *)
 }.
 
 Definition dec_cs2 (x : cs2_l) : changeset * changeset := (dec_changeset x.1, dec_changeset x.2).
@@ -39,11 +44,28 @@ Definition split_corr (b : base) (mb : list bundle) (i : nat) (o : option split_
 Fixpoint forall_from {A} (f : nat -> A -> bool) (j : nat) (l : list A) : bool :=
   match l with [] => true | x :: r => f j x && forall_from f (S j) r end.
 
+Definition fresh_b2 (b : base) (o : fsplit_l) : option bundle :=
+  bundle_from (c_retain b) bundle_empty (map (map dec_tx) o.1.1.1).
+Definition fsplit_corr (b : base) (mb : list bundle) (i : nat) (o : option fsplit_l) : bool :=
+  match o with
+  | None => false
+  | Some x =>
+      let '(fg, e, ecs, epr) := x in
+      match nth_error mb (i - 1), fresh_b2 b x with
+      | Some b1, Some b2 =>
+          let me := extend b1 b2 in
+          eqb me (dec_bundle e) && eqb (cs2_of me) (dec_cs2 ecs)
+          && eqb (to_plain_state_reverts (bs_reverts me)) (map dec_prevert epr)
+      | _, _ => false
+      end
+  end.
+
 Definition corr (c : case) : bool :=
   let b := k_base c in
   let mb := good_bundles (model_bundles b) in
   panic_agrees b
   && forall_from (split_corr b mb) 1 (k_splits c)
+  && forall_from (fsplit_corr b mb) 1 (k_fsplits c)
   && match List.last (map Some mb) None, k_take c, k_mono c with
      | None, None, None => true
      | Some m, Some (n, det, lft, all, left_all), Some (mcs, mpr) =>
@@ -96,6 +118,24 @@ Definition split_reverts_ok (b : base) (o : option split_l) : bool :=
       negb (c_retain b) || reverts_ok p0 p0 (map dec_prevert epr) (ref_after_groups b)
   end.
 
+(* separately built second half: same two clauses *)
+Definition fsplit_state_ok (b : base) (o : option fsplit_l) : bool :=
+  match o with
+  | None => false
+  | Some (fg, e, ecs, epr) =>
+      let p0 := dec_plain (c_p0 b) in
+      let target := ref_after b (length (c_groups b)) in
+      let '(ey, en) := dec_cs2 ecs in
+      changeset_ok en p0 target && changeset_ok ey p0 target
+  end.
+Definition fsplit_reverts_ok (b : base) (o : option fsplit_l) : bool :=
+  match o with
+  | None => false
+  | Some (fg, e, ecs, epr) =>
+      let p0 := dec_plain (c_p0 b) in
+      negb (c_retain b) || reverts_ok p0 p0 (map dec_prevert epr) (ref_after_groups b)
+  end.
+
 Definition take_ok (o : option take_l) : bool :=
   match o with
   | None => true
@@ -137,6 +177,22 @@ Definition marker_clash (b : base) (i : nat) : bool :=
   | _, _ => false
   end.
 
+Definition fmarker_clash (b : base) (i : nat) (o : option fsplit_l) : bool :=
+  let mb := good_bundles (model_bundles b) in
+  match o with
+  | Some x =>
+      match nth_error mb (i - 1), fresh_b2 b x with
+      | Some b1, Some b2 =>
+          existsb (fun g => existsb (fun ar => marker_clash_acct (bs_state b1) ar.1 ar.2) (map_to_list g))
+                  (bs_reverts b2)
+      | _, _ => false
+      end
+  | None => false
+  end.
+Definition fsplits_ok (exempt_clash : bool) (c : case) : bool :=
+  let b := k_base c in
+  forall_from (fun i o => fsplit_state_ok b o && ((exempt_clash && fmarker_clash b i o) || fsplit_reverts_ok b o)) 1 (k_fsplits c).
+
 (* [skip b i] says whether split i is exempt *)
 Definition splits_ok (f : base -> option split_l -> bool) (skip : base -> nat -> bool) (c : case) : bool :=
   let b := k_base c in
@@ -147,7 +203,7 @@ Definition basic_ok (c : case) : bool :=
   negb (c_panicked b) && negb (c_dup b) && take_ok (k_take c)
   && match k_mono c, k_splits c with None, _ :: _ => false | _, _ => true end.
 Definition oracle (c : case) : bool :=
-  basic_ok c && splits_ok split_state_ok never c && splits_ok split_reverts_ok never c.
+  basic_ok c && splits_ok split_state_ok never c && splits_ok split_reverts_ok never c && fsplits_ok false c.
 
 (* known-finding classes (only exempt splits fail):
    10 C18-extend-inherited-destroyed-status: joined changeset wrong on a split whose second part
@@ -161,13 +217,14 @@ Definition verdict (c : case) : Z :=
     else if oracle c then (if corr c then 0 else 1)
     else if negb (basic_ok c
                   && splits_ok split_state_ok inherits_destroyed c
-                  && splits_ok split_reverts_ok (fun b i => inherits_destroyed b i || marker_clash b i) c)
+                  && splits_ok split_reverts_ok (fun b i => inherits_destroyed b i || marker_clash b i) c
+                  && fsplits_ok true c)
     then 2
     (* a known finding is the recorded behaviour: the implementation still does what the model
        (which mirrors the unchanged code, defects included) does; any other wrong answer is new *)
     else if negb (corr c) then 2
     else if negb (splits_ok split_state_ok never c) then 10
-    else if splits_ok split_reverts_ok inherits_destroyed c then 11
+    else if splits_ok split_reverts_ok inherits_destroyed c && fsplits_ok false c then 11
     else 12
   else (if corr c then 0 else 1).
 
